@@ -49,22 +49,55 @@ def update_status_sites(prog):
     return us, sites
 
 
+def status_feeds(prog, depth=0):
+    """[(function, node to report at, expression whose `.status` is reported, tag expression)]: the
+    update_status sites, with a site inside a helper that merely forwards one of its parameters
+    (`fn apply(result, tag, ..) { self.update_status(result.status, tag); .. }`) replaced by the
+    call sites of that helper"""
+    us, sites = update_status_sites(prog)
+    out = []
+
+    def expand(f, n, base, tag, d):
+        bl = hir.local_of(base) if base is not None else None
+        b = f.bindings().get(bl[0]) if bl else None
+        if b is not None and b["origin"][0] == "param" and d < 3:
+            idx = b["origin"][1]
+            tl = hir.local_of(tag) if tag is not None else None
+            tb = f.bindings().get(tl[0]) if tl else None
+            tidx = tb["origin"][1] if tb is not None and tb["origin"][0] == "param" else None
+            callers = [(g, c) for g, c in prog.sites_calling(f) if hir.is_call(c)]
+            if callers:
+                for g, c in callers:
+                    a = hir.call_args(c)
+                    if idx < len(a):
+                        expand(g, c, a[idx], a[tidx] if tidx is not None and tidx < len(a) else tag, d + 1)
+                return
+        out.append((f, n, base, tag))
+
+    for f, n in sites:
+        a = hir.call_args(n)
+        st = hir.peel(a[1])
+        base = st["x"] if st.get("k") == "Field" and st["field"] == "status" else None
+        if base is None:
+            out.append((f, n, None, a[2] if len(a) > 2 else None))
+        else:
+            expand(f, n, base, a[2] if len(a) > 2 else None, 0)
+    return us, out
+
+
 def rule_modified_implies_hook(check, rule="MODIFIED-HOOK"):
     """Every TransformResult whose status reaches update_status carries an expression built by a
     hook builder whenever it is Modified."""
     prog = check.prog
     check.rule(rule, "the file status becomes Modified (and a propagation is counted) only for results whose expression was built by get_dd_paren_expr/get_dd_call_expr; TransformStatus.status is written only by update_status and cancel_visit")
     pv = Prov(prog, opaque=HOOK_SOURCES)
-    us, sites = update_status_sites(prog)
-    check.floor(rule, "update_status call sites", len(sites), 4)
-    for f, n in sites:
-        args = hir.call_args(n)
-        st = hir.peel(args[1])
+    us, feeds = status_feeds(prog)
+    check.floor(rule, "update_status call sites", len(feeds), 4)
+    for f, n, base, _tag in feeds:
         key = "%s/%s" % (rule, _site_key(f, n))
-        if not (st.get("k") == "Field" and st["field"] == "status"):
-            check.bad(rule, key + "/status-arg", hir.loc(n), "status argument is not the .status of a TransformResult: %s" % hir.describe(st))
+        if base is None:
+            check.bad(rule, key + "/status-arg", hir.loc(n), "status argument is not the .status of a TransformResult: %s" % hir.describe(hir.call_args(n)[1]))
             continue
-        base = st["x"]
         exprs = pv._proj(pv.origins(f, base), ("expr",))
         verdicts = {hook_derived(pv, o) for o in exprs}
         bad = sorted(v for v in verdicts if v not in ("hook", "none"))
